@@ -280,6 +280,9 @@ func stageUniq(run *ev.Run, p params, ids *idCollector) {
 			block := frugal.VerifMarshalHeaders(map[string]string{"_opid": strconv.Itoa(1 + rng.Intn(1000)), "_cid": "in-" + strconv.Itoa(g), "k": "v"})
 			bar.wait()
 			for i := 1; i <= N; i++ {
+				if i%256 == 0 {
+					tick()
+				}
 				way := uint8(rng.Intn(7))
 				var ctx frugal.FContext
 				var err error
@@ -293,8 +296,17 @@ func stageUniq(run *ev.Run, p params, ids *idCollector) {
 				case srcFnCloneOwn:
 					ctx = frugal.Clone(own)
 				case srcMethCloneShared:
-					if rng.Intn(4) == 0 { // the shared original is mutated meanwhile
-						shared.AddRequestHeader("k"+strconv.Itoa(rng.Intn(4)), strconv.Itoa(i))
+					if rng.Intn(3) == 0 { // the shared original is written meanwhile
+						switch rng.Intn(4) {
+						case 0:
+							shared.AddRequestHeader("k"+strconv.Itoa(rng.Intn(4)), strconv.Itoa(i))
+						case 1:
+							shared.AddResponseHeader("k"+strconv.Itoa(rng.Intn(4)), strconv.Itoa(i))
+						case 2:
+							shared.SetTimeout(time.Duration(1+rng.Intn(9000)) * time.Millisecond)
+						case 3:
+							shared.(frugal.FContextWithEphemeralProperties).AddEphemeralProperty(rng.Intn(4), i)
+						}
 					}
 					ctx = shared.(frugal.FContextWithEphemeralProperties).Clone()
 				case srcFnCloneCustom:
